@@ -13,7 +13,8 @@ VARIABLES l, failed
 vars == <<l, failed>>
 
 Scen(e) == [mode |-> e.sc.mode, out |-> e.sc.out, quit |-> e.sc.quit, status |-> e.sc.status,
-            src |-> {x \in {"config", "delta", "bat", "pager"} : e.sc.src[x]}, pagerval |-> e.sc.pagerval]
+            src |-> {x \in {"config", "delta", "bat", "pager"} : e.sc.src[x]}, pagerval |-> e.sc.pagerval,
+            stay |-> e.sc.stay, big |-> e.sc.big, how |-> e.sc.how]
 
 Why(e) ==
   LET sc == Scen(e) IN
